@@ -376,6 +376,13 @@ func c08Judge(s *scn.Scn, r *scn.Run, m *scn.MResult) (sig, detail string) {
 		if ok != n.OK {
 			return "outcome", fmt.Sprintf("node %d (%s): recorded err=%v, the caller saw ok=%v", i, n, c.Err, n.OK)
 		}
+		if n.JPFailed != "" {
+			// what a failing join point hands back: its own return data (an Aspect revert carries a reason), the
+			// callee's data when the post join point ran out of gas, nothing otherwise
+			if !bytes.Equal(c.Ret, n.Ret) && !(len(c.Ret) == 0 && len(n.Ret) == 0) {
+				return "ret_after_join_point_failure", fmt.Sprintf("node %d (%s): recorded return data %x, the %s join point handed back %x", i, n, clip(c.Ret), n.JPFailed, clip(n.Ret))
+			}
+		}
 		if n.JPFailed == "" {
 			wantRet := n.Ret
 			if !bytes.Equal(c.Ret, wantRet) && !(len(c.Ret) == 0 && len(wantRet) == 0) {
